@@ -208,6 +208,12 @@ func (fi *FileInfo) MakeReader(opt *ReaderOptions) (*Reader, error) {
 	if shouldExit(err) {
 		return nil, err
 	} else if r.meta.Catalog == nil || r.meta.Catalog.Pages == 0 {
+		if err == nil {
+			// never (nil, nil): the catalog was decoded but has no usable /Pages
+			err = &MalformedFileError{
+				Err: errors.New("no pages in PDF document catalog"),
+			}
+		}
 		return nil, err
 	}
 	if r.meta.Catalog.Version > r.meta.Version {
